@@ -36,6 +36,18 @@ M = {
     "a boxed container with a !Send payload and a check of the Send marker of the opaque form", ["C09"], "C09:cbox:Send cell of the marker matrix"),
  "C16-cvec-drop-fn-args-swapped": ("C16", "cglue/src/vec.rs: cglue_drop_vec takes (data, capacity, len) and Drop passes them in that order; the published field type is unchanged",
     "a C-side caller releasing a CVec with len != capacity through drop_fn(data, len, capacity)", ["C16", "C11"], "C16 CVec view release / C11 drop-fn trampoline arguments"),
+ "C01-int-result-unit-error-code-flattened": ("C01", "cglue-gen/src/func.rs ParsedReturnType::new: the C-side wrapper of an #[int_result] method returning Result<(), E> returns `ret.is_err() as i32` instead of into_int_result(ret), so every error arrives as code 1 (round 2)",
+    "an #[int_result] method whose Ok type is exactly (), an error type with more than one code, and an Err whose code is not 1", ["C13"], "C13 generated half (static #[int_result] traits through opaque objects and raw vtable entries; added after this seed was first missed) and C13:int-result in generated batches (weight of unit Ok types raised)"),
+ "C03-rettmp-repr-rust-without-layout-checks": ("C03", "cglue-gen/src/traits.rs gen_trait: the field-bearing <Trait>RetTmp struct gets #[repr(C)] only under the generator's layout_checks feature (which the workspace test build unifies on), so in a default build the temporary-return struct inside every container has Rust layout (round 2)",
+    "a default-feature build and a trait with a borrowed wrapped return (wrap_with_obj_ref/_mut, wrap_with_group_ref/_mut)", ["C03"], "C03:no-c-repr (structural audit of expansions) and the compiler lint on by-reference-wrapping definitions"),
+ "C04-vtbl-only-entries-moved-last": ("C04", "cglue-gen/src/traits.rs parse_trait: #[vtbl_only] methods are collected separately and appended after all other entries, so their function pointers move to the end of the vtable (round 2)",
+    "a trait with a #[vtbl_only] method declared before an ordinary method, and a positional reader of the vtable", ["C04"], "C04:vtable-order: fields of the generated <Trait>Vtbl struct vs exported methods in declaration order (#[vtbl_only] added to the grammar and this structural oracle added after the seed was first missed)"),
+ "C05-carc-clone-installs-local-drop": ("C05", "cglue/src/arc.rs CArcSome::clone writes drop_fn: Some(c_drop) (the cloning module's instantiation) instead of copying the source handle's drop_fn (round 2)",
+    "a clone made in module B of an arc created in module A that ends up the last reference", ["C05", "C10", "C07"], "C05:foreign-free across separately built modules; C10 fn-pointers; C07:ctx-count"),
+ "C06-cbox-no-drop-fn-without-drop-glue": ("C06", "cglue/src/boxed.rs From<Box<T>> for CBox: drop_fn is None when !needs_drop::<T>(), so the allocation behind a boxed payload without drop glue is never freed (round 2)",
+    "a non-zero-sized payload without drop glue (integers, Copy structs) and allocation accounting", ["C06", "C16"], "C06:leak in the `boxes` histories; C16 box-fields"),
+ "C07-consuming-guard-bound-to-underscore": ("C07", "cglue-gen/src/func.rs TraitArgConv::new: the caller-side context guard of by-value methods is bound to `_` (dropped at once) instead of `__ctx` (round 2)",
+    "a consuming call on the object holding the last context reference and an observer inside/after the vtable call but before the generated method returns", ["C07"], "C07:released-inside-call (backtrace oracle at the context payload's Drop)"),
  "C20-optional-vtables-opaque-in-layout": ("C20", "cglue-gen/src/trait_groups.rs: under layout_checks the Option<&Vtbl> fields of optional traits get #[sabi(unsafe_opaque_field)], so edits inside an optional trait of a group compare as Valid",
     "a group with an optional trait and an edit inside that optional trait", ["C20"], "C20:difference-accepted on pairs where the edited trait is an optional member (edit kind added after this seed was first missed)"),
  "C17-mut-arc-drop-helper-skips-context": ("C17", "cglue-bindgen/src/types.rs create_wrapper: in the generated C `*_drop` helper the context release is only emitted when the container also has a drop helper (Box)",
